@@ -224,6 +224,7 @@ namespace bloch::runtime {
     class RuntimeEvaluator {
 #ifdef BLOCH_VERIF
         friend struct VerifAccess;
+        size_t m_verifGcTick = 0;  // H4: statement boundaries seen so far
 #endif
        public:
         explicit RuntimeEvaluator(bool collectQasmLog = true) : m_collectQasmLog(collectQasmLog) {}
